@@ -72,3 +72,44 @@ Definition set_allocations_deadlock (rb : bool) (committed d : db) (l : list are
 (* index of the first compare-and-swap statement *)
 Definition first_cas (l : list areq) : nat :=
   length (map SDel (dedup (map q_cons l)) ++ [SCheck] ++ map SIns (filter (fun a => negb (q_amt a =? 0)) l)).
+
+(* ---------------------------------------------------------------- retried top-level transactions
+   (_trait_sync, _resource_classes_sync, _set_aggregates: wrap_db_retry OUTSIDE the writer scope): every
+   attempt is its own transaction, a faulting attempt is rolled back as a whole *)
+Fixpoint retry_top (retries : nat) (faults : list bool) (f : db -> result db) (d : db) : option (result db) :=
+  match faults with
+  | [] => Some (f d)
+  | false :: _ => Some (f d)
+  | true :: rest => match retries with
+                    | O => None                       (* retries exhausted: the error propagates, d unchanged *)
+                    | S r => retry_top r rest f d
+                    end
+  end.
+
+(* ---------------------------------------------------------------- a non-retryable database error in one
+   transaction of a request (Model/Conc.v state machines): the transaction is rolled back, the handler's
+   `except Exception` clean-up removes the consumers the request created, the client gets 500 *)
+Definition tstep_fail (t : tstate) (d : db) : db * tstate :=
+  match t with
+  | TDone r => (d, t)
+  | TProvRead _ | TProvWrite _ _ | TRi _ _ | TDelRead _ | TDelRows _ _ => (d, TDone (err 500 C_DEFAULT))
+  | TCons _ _ acc | TCreate _ _ _ acc | TReload _ _ _ acc => (d, cleanup_or_done (created_uuids acc) (err 500 C_DEFAULT))
+  | TObjs _ ks _ _ | TMain _ ks _ => (d, cleanup_or_done (created_uuids ks) (err 500 C_DEFAULT))
+  (* a failing clean-up transaction is logged and skipped: the consumer stays; the response is unchanged *)
+  | TCleanup todo r => (d, match todo with _ :: (_ :: _ as rest) => TCleanup rest r | _ => TDone r end)
+  | TDelCons _ => (d, TDone (err 500 C_DEFAULT))
+  end.
+
+(* run a request to completion with a fault in its j-th transaction (no fault if it finishes earlier) *)
+Fixpoint run_faulty (fuel : nat) (j : nat) (t : tstate) (d : db) : db * tstate :=
+  match fuel with
+  | O => (d, t)
+  | S f =>
+      match t with
+      | TDone _ => (d, t)
+      | _ => match j with
+             | O => let '(d', t') := tstep_fail t d in run_thread f t' d'
+             | S j' => let '(d', t') := tstep t d in run_faulty f j' t' d'
+             end
+      end
+  end.
